@@ -230,3 +230,28 @@ func DocStrings(d gen.DocSpec) []string {
 	}
 	return out
 }
+
+// Targets lists the rules of a document the way a configuration's filters see them
+// (effective labels = group labels overridden / extended by the rule's own).
+func Targets(path string, d gen.DocSpec) []Target {
+	var out []Target
+	for _, g := range d.Groups {
+		for _, r := range g.Rules {
+			t := Target{Path: path, Alert: r.Alert, Name: r.Name, Anns: r.Anns, For: r.For, Keep: r.Keep}
+			for _, gl := range g.Labels {
+				over := false
+				for _, rl := range r.Labels {
+					if rl[0] == gl[0] {
+						over = true
+					}
+				}
+				if !over {
+					t.Labels = append(t.Labels, gl)
+				}
+			}
+			t.Labels = append(t.Labels, r.Labels...)
+			out = append(out, t)
+		}
+	}
+	return out
+}
